@@ -1,2 +1,381 @@
-use crate::harness::Gen;
-pub fn gens() -> Vec<Gen> { vec![] }
+//! C04: key binding is enforced whenever the verifier asks for it.
+
+use crate::harness::{fail, Gen, Verdict};
+use crate::keys;
+use crate::oracle::Strategy;
+use crate::pipeline::{honest_kb_claims, make_kb, sd_hash, select_all, Cfg};
+use crate::rng::Rng;
+use crate::sut::{self, Kb, Out};
+use crate::util::{jstr, short, Parts, FAR_EXP, J};
+use jsonwebtoken::EncodingKey;
+use serde_json::json;
+
+pub fn gens() -> Vec<Gen> {
+    vec![
+        Gen { name: "c04.attacks", prop: "C04", tags: &["sd_hash", "nonce", "aud", "typ", "kb", "verify_key_binding", "src/verifier.rs"], cases: cases_attacks, check },
+        Gen { name: "c04.issuer_sequence", prop: "C04", tags: &["cnf", "holder_key", "issuer", "src/issuer.rs"], cases: cases_sequence, check },
+        Gen { name: "c04.kb_chars", prop: "C04", tags: &["char"], cases: cases_chars, check },
+    ]
+}
+
+fn claims() -> J {
+    json!({"iss": "https://issuer.example/i", "exp": FAR_EXP, "vis": "v", "role": "guest", "addr": {"city": "X", "zip": "1"}, "tags": ["t0", "t1"]})
+}
+
+fn cfg_of(format: &str, alg: &str, holder: &str, decoys: bool) -> Cfg {
+    Cfg { claims: claims(), strategy: Strategy::AllLevels, format: format.into(), alg: alg.into(), decoys, holder: Some(holder.into()) }
+}
+
+fn configs() -> Vec<Cfg> {
+    let mut v = Vec::new();
+    for (i, (alg, holder)) in [("ES256", "es256"), ("ES256", "eddsa"), ("EdDSA", "es256"), ("HS256", "eddsa"), ("EdDSA", "eddsa-b"), ("HS256", "es256-b")].iter().enumerate() {
+        for format in ["compact", "json"] {
+            v.push(cfg_of(format, alg, holder, i % 2 == 1));
+        }
+    }
+    v
+}
+
+fn case_of(cfg: &Cfg, attack: J, aud: &str, nonce: &str) -> J {
+    let mut c = cfg.to_json();
+    c["attack"] = attack;
+    c["aud"] = json!(aud);
+    c["nonce"] = json!(nonce);
+    c
+}
+
+const AUD: &str = "https://verifier.example/aud";
+const NONCE: &str = "n-0S6_WzA2Mj";
+
+fn cases_attacks(_rng: &mut Rng, sink: &mut dyn FnMut(J) -> bool) {
+    let mut attacks: Vec<J> = vec![json!({"kind": "none"})];
+    for kind in ["kb_removed", "kb_empty", "only_aud", "only_nonce", "verifier_other_aud", "verifier_other_nonce", "verifier_aud_nonce_swapped"] {
+        attacks.push(json!({ "kind": kind }));
+    }
+    for f in ["sd_hash", "nonce", "aud", "iat"] {
+        attacks.push(json!({"kind": "claim_absent", "field": f}));
+    }
+    for (f, v) in [
+        ("sd_hash", json!("47DEQpj8HBSa-_TImW-5JCeuQeRkm5NMpJWZG3hSuFU")),
+        ("sd_hash", json!("")),
+        ("sd_hash", json!(null)),
+        ("sd_hash", json!(["x"])),
+        ("nonce", json!("other-nonce")),
+        ("nonce", json!(null)),
+        ("nonce", json!(12)),
+        ("nonce", json!([NONCE])),
+        ("nonce", json!("")),
+        ("aud", json!("https://other.example")),
+        ("aud", json!("")),
+        ("aud", json!(["https://other.example"])),
+        ("aud", json!(null)),
+    ] {
+        attacks.push(json!({"kind": "claim_value", "field": f, "value": v}));
+    }
+    for t in [json!(null), json!("JWT"), json!("kb+jwt "), json!("KB+JWT"), json!("kb-jwt"), json!("sd+jwt"), json!("")] {
+        attacks.push(json!({"kind": "typ", "typ": t}));
+    }
+    for who in ["issuer", "other_holder_same_family", "other_holder_other_family", "hs_with_public_key"] {
+        attacks.push(json!({"kind": "resigned", "by": who}));
+    }
+    for how in ["one_more", "one_fewer", "reordered", "none_left", "other_credential", "sd_hash_of_other_set"] {
+        attacks.push(json!({"kind": "replay", "how": how}));
+    }
+    for cfg in configs() {
+        for a in &attacks {
+            if !sink(case_of(&cfg, a.clone(), AUD, NONCE)) {
+                return;
+            }
+        }
+        // honest presentations for other (aud, nonce) strings
+        for (aud, nonce) in [("a", "n"), ("https://v.example/?q=1&x=~y", "nonce with space"), ("\u{1F600}", "\u{10FFFF}x"), ("", ""), ("aud\"quote\\", "1234567890")] {
+            if !sink(case_of(&cfg, json!({"kind": "none"}), aud, nonce)) {
+                return;
+            }
+        }
+    }
+}
+
+fn cases_sequence(_rng: &mut Rng, sink: &mut dyn FnMut(J) -> bool) {
+    for format in ["compact", "json"] {
+        for alg in ["ES256", "EdDSA", "HS256"] {
+            for (a, b) in [("es256", "eddsa"), ("eddsa", "es256"), ("es256", "es256-b"), ("eddsa-b", "eddsa"), ("es256", "es256")] {
+                let cfg = cfg_of(format, alg, b, false);
+                for which in ["second_accepts", "first_key_rejected"] {
+                    if !sink(case_of(&cfg, json!({"kind": "issuer_sequence", "first_holder": a, "check": which}), AUD, NONCE)) {
+                        return;
+                    }
+                }
+            }
+        }
+    }
+}
+
+fn cases_chars(_rng: &mut Rng, sink: &mut dyn FnMut(J) -> bool) {
+    for cfg in [cfg_of("compact", "ES256", "es256", false), cfg_of("json", "EdDSA", "eddsa", false), cfg_of("json", "ES256", "es256", true), cfg_of("compact", "HS256", "eddsa", false)] {
+        // probe KB length once
+        let kb = Kb { nonce: NONCE.into(), aud: AUD.into(), holder: cfg.holder.clone().unwrap() };
+        let Ok((issued, _)) = cfg.issue_parts() else { continue };
+        let Out::Ok(mut h) = sut::holder_new(&issued, &cfg.format) else { continue };
+        let Out::Ok(p) = sut::present(&mut h, &select_all(&cfg.claims), Some(&kb)) else { continue };
+        let len = Parts::parse(&p, &cfg.format).and_then(|p| p.kb).map(|k| k.len()).unwrap_or(0);
+        for pos in 0..=len {
+            for m in ["subst", "delete", "insert"] {
+                if pos == len && m != "insert" {
+                    continue;
+                }
+                if !sink(case_of(&cfg, json!({"kind": "kb_char", "how": m, "pos": pos}), AUD, NONCE)) {
+                    return;
+                }
+            }
+        }
+    }
+}
+
+fn other_holder(kind: &str, same_family: bool) -> &'static str {
+    match (kind.starts_with("es256"), same_family) {
+        (true, true) => {
+            if kind == "es256" {
+                "es256-b"
+            } else {
+                "es256"
+            }
+        }
+        (true, false) => "eddsa",
+        (false, true) => {
+            if kind == "eddsa" {
+                "eddsa-b"
+            } else {
+                "eddsa"
+            }
+        }
+        (false, false) => "es256",
+    }
+}
+
+const B64: &str = "ABCDEFGHIJKLMNOPQRSTUVWXYZabcdefghijklmnopqrstuvwxyz0123456789-_";
+
+pub fn check(case: &J) -> Verdict {
+    let Some(cfg) = Cfg::from_json(case) else { return Verdict::Trivial };
+    let Some(holder) = cfg.holder.clone() else { return Verdict::Trivial };
+    let attack = &case["attack"];
+    let kind = attack["kind"].as_str().unwrap_or("none");
+    let kb = Kb { nonce: case["nonce"].as_str().unwrap_or(NONCE).into(), aud: case["aud"].as_str().unwrap_or(AUD).into(), holder: holder.clone() };
+    let all = select_all(&cfg.claims);
+
+    // ---- issuance (possibly as the second credential of one issuer instance)
+    let issued = if kind == "issuer_sequence" {
+        let mut issuer = sut::new_issuer(&cfg.alg);
+        let first = attack["first_holder"].as_str().unwrap_or("es256");
+        let other_claims = json!({"iss": "https://issuer.example/i", "exp": FAR_EXP, "name": "first subject"});
+        if let Out::Panic(m) = sut::issue_on(&mut issuer, &other_claims, &Strategy::TopLevel, Some(first), false, &cfg.format) {
+            return fail(format!("first issuance PANIC: {m}"), "Ok");
+        }
+        match sut::issue_on(&mut issuer, &cfg.claims, &cfg.strategy, Some(&holder), cfg.decoys, &cfg.format) {
+            Out::Ok(s) => s,
+            o => return fail(format!("second issue_sd_jwt on one issuer -> {}", o.brief()), "Ok"),
+        }
+    } else {
+        match cfg.issue() {
+            Out::Ok(s) => s,
+            o => return fail(format!("issue_sd_jwt -> {}", o.brief()), "Ok"),
+        }
+    };
+    let mut h = match sut::holder_new(&issued, &cfg.format) {
+        Out::Ok(h) => h,
+        o => return fail(format!("SDJWTHolder::new -> {}", o.brief()), "Ok"),
+    };
+    let pres = match sut::present(&mut h, &all, Some(&kb)) {
+        Out::Ok(p) => p,
+        o => return fail(format!("create_presentation with key binding -> {}", o.brief()), "Ok"),
+    };
+    let Some(p) = Parts::parse(&pres, &cfg.format) else { return fail("presentation does not parse", "well-formed") };
+    let Some(kb_jwt) = p.kb.clone() else { return fail("presentation carries no KB-JWT although one was requested", "KB-JWT present") };
+
+    let verify = |text: &str, aud: Option<&str>, nonce: Option<&str>| sut::verify_with(text, &J::String(cfg.alg.clone()), aud, nonce, &cfg.format);
+    let expect_accept = |o: Out<J>, what: &str| match o {
+        Out::Ok(_) => Verdict::Pass,
+        o => fail(format!("{what} -> {}", o.brief()), "accepted"),
+    };
+    let expect_reject = |o: Out<J>, what: &str| match o {
+        Out::Err(_) => Verdict::Pass,
+        Out::Ok(v) => fail(format!("ACCEPTED {what}; claims {}", short(&jstr(&v), 200)), "rejected with an error"),
+        Out::Panic(m) => fail(format!("PANIC: {m}"), "rejected with an error"),
+    };
+    let holder_key = keys::holder_enc(&holder);
+    let holder_alg = keys::holder_alg(&holder);
+    let with_kb = |kbs: Option<String>| Parts { jwt: p.jwt.clone(), disclosures: p.disclosures.clone(), kb: kbs }.serialize(&cfg.format);
+    let honest_claims = honest_kb_claims(&kb, &p.jwt, &p.disclosures);
+
+    match kind {
+        "none" => expect_accept(verify(&pres, Some(&kb.aud), Some(&kb.nonce)), "honest key-bound presentation"),
+        "issuer_sequence" => {
+            if attack["check"] == "second_accepts" {
+                expect_accept(
+                    verify(&pres, Some(&kb.aud), Some(&kb.nonce)),
+                    "honest key-bound presentation of the 2nd credential issued by one issuer instance",
+                )
+            } else {
+                // a KB-JWT signed by the FIRST holder's key must not be accepted for the second holder's credential
+                let first = attack["first_holder"].as_str().unwrap_or("es256");
+                if first == holder {
+                    return Verdict::Trivial;
+                }
+                let Some(forged) = make_kb(&keys::holder_enc(first), keys::holder_alg(first), Some("kb+jwt"), &honest_claims) else { return Verdict::Trivial };
+                expect_reject(verify(&with_kb(Some(forged)), Some(&kb.aud), Some(&kb.nonce)), "a KB-JWT signed by the previous holder's key")
+            }
+        }
+        "kb_removed" => {
+            let text = if cfg.format == "json" {
+                Parts { jwt: p.jwt.clone(), disclosures: p.disclosures.clone(), kb: None }.to_json_styled(false, false)
+            } else {
+                with_kb(None)
+            };
+            expect_reject(verify(&text, Some(&kb.aud), Some(&kb.nonce)), "a presentation without KB-JWT")
+        }
+        "kb_empty" => expect_reject(verify(&with_kb(Some(String::new())), Some(&kb.aud), Some(&kb.nonce)), "a presentation with an empty KB-JWT"),
+        "only_aud" => expect_reject(verify(&pres, Some(&kb.aud), None), "verification with aud but no nonce"),
+        "only_nonce" => expect_reject(verify(&pres, None, Some(&kb.nonce)), "verification with nonce but no aud"),
+        "verifier_other_aud" => expect_reject(verify(&pres, Some("https://someone-else.example"), Some(&kb.nonce)), "a KB-JWT for another audience"),
+        "verifier_other_nonce" => expect_reject(verify(&pres, Some(&kb.aud), Some("fresh-nonce-2")), "a KB-JWT for another nonce"),
+        "verifier_aud_nonce_swapped" => expect_reject(verify(&pres, Some(&kb.nonce), Some(&kb.aud)), "aud and nonce swapped"),
+        "claim_absent" | "claim_value" => {
+            let mut c = honest_claims.clone();
+            let f = attack["field"].as_str().unwrap_or("sd_hash");
+            if kind == "claim_absent" {
+                c.as_object_mut().unwrap().shift_remove(f);
+                if f == "iat" {
+                    // iat is not something the property requires; control only
+                    let Some(k) = make_kb(&holder_key, holder_alg, Some("kb+jwt"), &c) else { return Verdict::Trivial };
+                    let _ = verify(&with_kb(Some(k)), Some(&kb.aud), Some(&kb.nonce));
+                    return Verdict::Trivial;
+                }
+            } else {
+                if c[f] == attack["value"] {
+                    return Verdict::Trivial;
+                }
+                c[f] = attack["value"].clone();
+            }
+            let Some(k) = make_kb(&holder_key, holder_alg, Some("kb+jwt"), &c) else { return Verdict::Trivial };
+            expect_reject(verify(&with_kb(Some(k)), Some(&kb.aud), Some(&kb.nonce)), &format!("a holder-signed KB-JWT with {f} {}", if kind == "claim_absent" { "absent".to_string() } else { format!("= {}", attack["value"]) }))
+        }
+        "typ" => {
+            let Some(k) = make_kb(&holder_key, holder_alg, attack["typ"].as_str(), &honest_claims) else { return Verdict::Trivial };
+            expect_reject(verify(&with_kb(Some(k)), Some(&kb.aud), Some(&kb.nonce)), &format!("a KB-JWT with typ {}", attack["typ"]))
+        }
+        "resigned" => {
+            let by = attack["by"].as_str().unwrap_or("");
+            let forged = match by {
+                "issuer" => {
+                    let alg = keys::alg_of(&cfg.alg);
+                    make_kb(&keys::issuer_enc(&cfg.alg), alg, Some("kb+jwt"), &honest_claims)
+                }
+                "other_holder_same_family" => {
+                    let o = other_holder(&holder, true);
+                    make_kb(&keys::holder_enc(o), keys::holder_alg(o), Some("kb+jwt"), &honest_claims)
+                }
+                "other_holder_other_family" => {
+                    let o = other_holder(&holder, false);
+                    make_kb(&keys::holder_enc(o), keys::holder_alg(o), Some("kb+jwt"), &honest_claims)
+                }
+                _ => {
+                    // HMAC keyed with the public coordinates from cnf.jwk
+                    let jwk = keys::holder_jwk_json(&holder);
+                    let mut secret = crate::util::b64d(jwk["x"].as_str().unwrap_or("")).unwrap_or_default();
+                    if let Some(y) = jwk["y"].as_str() {
+                        let mut s = vec![4u8];
+                        s.extend(secret);
+                        s.extend(crate::util::b64d(y).unwrap_or_default());
+                        secret = s;
+                    }
+                    make_kb(&EncodingKey::from_secret(&secret), "HS256", Some("kb+jwt"), &honest_claims)
+                }
+            };
+            let Some(forged) = forged else { return Verdict::Trivial };
+            // the issuer key can coincide with the holder key for the "-b" holders
+            if by == "issuer" && ((holder == "es256-b" && cfg.alg == "ES256") || (holder == "eddsa-b" && cfg.alg == "EdDSA")) {
+                return Verdict::Trivial;
+            }
+            expect_reject(verify(&with_kb(Some(forged)), Some(&kb.aud), Some(&kb.nonce)), &format!("a KB-JWT signed by {by}"))
+        }
+        "replay" => {
+            let how = attack["how"].as_str().unwrap_or("");
+            let n = p.disclosures.len();
+            if n < 2 {
+                return Verdict::Trivial;
+            }
+            let text = match how {
+                "one_fewer" => {
+                    // drop a leaf disclosure (the first issued one is a leaf)
+                    let mut ds = p.disclosures.clone();
+                    ds.remove(0);
+                    Parts { jwt: p.jwt.clone(), disclosures: ds, kb: Some(kb_jwt.clone()) }.serialize(&cfg.format)
+                }
+                "none_left" => Parts { jwt: p.jwt.clone(), disclosures: vec![], kb: Some(kb_jwt.clone()) }.serialize(&cfg.format),
+                "reordered" => {
+                    let mut ds = p.disclosures.clone();
+                    ds.swap(0, n - 1);
+                    Parts { jwt: p.jwt.clone(), disclosures: ds, kb: Some(kb_jwt.clone()) }.serialize(&cfg.format)
+                }
+                "one_more" => {
+                    // KB made for a presentation without `role`, then `role` is added back
+                    let mut sel = all.clone();
+                    sel.insert("role".into(), J::Bool(false));
+                    let pres2 = match sut::present(&mut h, &sel, Some(&kb)) {
+                        Out::Ok(p) => p,
+                        o => return fail(format!("second create_presentation -> {}", o.brief()), "Ok"),
+                    };
+                    let Some(p2) = Parts::parse(&pres2, &cfg.format) else { return Verdict::Trivial };
+                    if p2.disclosures.len() + 1 != n {
+                        return Verdict::Trivial;
+                    }
+                    Parts { jwt: p.jwt.clone(), disclosures: p.disclosures.clone(), kb: p2.kb }.serialize(&cfg.format)
+                }
+                "other_credential" => {
+                    // the KB-JWT of another credential of the same holder
+                    let Ok((issued2, _)) = cfg.issue_parts() else { return Verdict::Trivial };
+                    let Out::Ok(mut h2) = sut::holder_new(&issued2, &cfg.format) else { return Verdict::Trivial };
+                    let Out::Ok(pres2) = sut::present(&mut h2, &all, Some(&kb)) else { return Verdict::Trivial };
+                    let Some(p2) = Parts::parse(&pres2, &cfg.format) else { return Verdict::Trivial };
+                    Parts { jwt: p.jwt.clone(), disclosures: p.disclosures.clone(), kb: p2.kb }.serialize(&cfg.format)
+                }
+                _ => {
+                    // holder-signed KB whose sd_hash covers a different disclosure set than presented
+                    let mut c = honest_claims.clone();
+                    c["sd_hash"] = json!(sd_hash(&p.jwt, &p.disclosures[1..]));
+                    let Some(k) = make_kb(&holder_key, holder_alg, Some("kb+jwt"), &c) else { return Verdict::Trivial };
+                    with_kb(Some(k))
+                }
+            };
+            expect_reject(verify(&text, Some(&kb.aud), Some(&kb.nonce)), &format!("a KB-JWT replayed ({how})"))
+        }
+        "kb_char" => {
+            let pos = attack["pos"].as_u64().unwrap_or(0) as usize;
+            let mut cs: Vec<char> = kb_jwt.chars().collect();
+            match attack["how"].as_str().unwrap_or("") {
+                "subst" => {
+                    if pos >= cs.len() {
+                        return Verdict::Trivial;
+                    }
+                    cs[pos] = match B64.find(cs[pos]) {
+                        Some(i) => B64.chars().nth((i + 1) % 64).unwrap(),
+                        None => 'A',
+                    };
+                }
+                "delete" => {
+                    if pos >= cs.len() {
+                        return Verdict::Trivial;
+                    }
+                    cs.remove(pos);
+                }
+                _ => cs.insert(pos.min(cs.len()), 'A'),
+            }
+            let mutated: String = cs.into_iter().collect();
+            if mutated == kb_jwt {
+                return Verdict::Trivial;
+            }
+            expect_reject(verify(&with_kb(Some(mutated)), Some(&kb.aud), Some(&kb.nonce)), "a KB-JWT with one character changed")
+        }
+        _ => Verdict::Trivial,
+    }
+}
